@@ -7,18 +7,20 @@ from . import addr
 from . import c10
 
 EXPLANATION = (
-    "Decides for every provided Buf/BufMut/BufSlice/BufMutSlice impl: (R1) no truncating narrowing of a limit — an "
-    "IntToInt cast usize->u32 whose operand originates in LimitedBuf.limit is a violation (a limit >= 2^32 would "
-    "become a smaller length) unless it went through a saturating conversion; (R2) order and coverage for tuples "
-    "(arities 2..8) and arrays: as_iovecs[_mut] builds element i from field i in order, set_init visits the same "
-    "sequence with the shape `len < left => set_init(len); left -= len else set_init(left); return`, and the totals "
-    "mention every index exactly once; (R3) sibling agreement: spare_capacity is the length component of parts_mut "
-    "and len is the length component of parts after normalising to canonical length forms (LEN/SPARE/MIN), modulo "
-    "widening casts; (R4) guard dominance at raw pointer arithmetic: SkipBuf::parts (ptr.add(skip) only under "
-    "skip < size with length size - skip), LimitedBuf::as_iovecs[_mut] (set_len(left) only under len > left), "
-    "IoSlice::skip call sites (skip < len); (R5) PROV (pointers do not point into the buffer value); (R6) wrapper "
-    "forwarding of pool hooks. The numeric laws for all sizes are not decided (lengths are assumed <= u32::MAX as "
-    "documented by the traits)."
+    'Decides for every provided Buf/BufMut/BufSlice/BufMutSlice impl: (R1) no truncating narrowing of a limit '
+    '— an IntToInt cast usize->u32 whose operand originates in LimitedBuf.limit is a violation (a limit >= '
+    '2^32 would become a smaller length) unless it went through a saturating conversion; (R2) order and '
+    'coverage for tuples (arities 2..8) and arrays: as_iovecs[_mut] builds element i from field i in order, '
+    'set_init visits the same sequence with the shape `len < left => set_init(len); left -= len else '
+    'set_init(left); return`, and the totals mention every index exactly once; (R3) sibling agreement: '
+    'spare_capacity is the length component of parts_mut and len is the length component of parts after '
+    'normalising to canonical length forms (LEN/SPARE/MIN), modulo widening casts; (R4) guard dominance at raw '
+    'pointer arithmetic: SkipBuf::parts (ptr.add(skip) only under skip < size with length size - skip), '
+    'LimitedBuf::as_iovecs[_mut] (set_len(left) only under len > left), IoSlice::skip call sites (skip < len); '
+    '(R5) PROV (pointers do not point into the buffer value); (R6) wrapper forwarding of pool hooks; (R7) '
+    'every pointer/length/capacity method of every LimitedBuf impl, including overrides of the doc-hidden '
+    'BufMut::parts hook, applies self.limit (or another limited method of self) on every return path. The '
+    'numeric laws for all sizes are not decided (lengths are assumed <= u32::MAX as documented by the traits).'
 )
 NOT_DECIDED = "numeric laws for all sizes; buffers of 4 GiB and more"
 ASSUMPTIONS = ["buffer lengths fit in u32 as the traits document", "std Vec/String/slice accessors behave as documented"]
